@@ -35,177 +35,216 @@ const c14Rule = "case = node in {raw bytes, non-dag-pb map/list/string/int, dag-
 	"oracle = the statement's table (same node back / link map with LookupByString(linkname) / bytes-kind LargeBytesNode / map-kind directory / error, never a panic) and Substrate() is the original dag-pb node whose re-encoding equals the original block; " +
 	"non-trivial = dag-pb with decodable Data and >= 1 link; distinct by (input class, type, link count, reifier, validity)"
 
+type c14Kept struct {
+	desc   string
+	node   datamodel.Node
+	orig   []byte
+	isFile bool
+	inner  []byte
+}
+
+// TestC14_P_ReifyTable reifies 1..3 generated nodes per case (same link system) and, after all of them, checks again that
+// every node still exposes its own original substrate: reification of one node must not alter another.
 func TestC14_P_ReifyTable(t *testing.T) {
 	ev := newEvid(t, c14Rule)
 	rapid.Check(t, func(t *rapid.T) {
 		st := NewStore()
 		ls := st.LinkSystem()
-		reifier := rapid.SampledFrom([]string{"Reify", "unixfs", "unixfs-preload"}).Draw(t, "reifier")
-		reify := func(n datamodel.Node) (datamodel.Node, error) {
-			if reifier == "Reify" {
-				return unixfsnode.Reify(ipld.LinkContext{}, n, ls)
+		var kept []*c14Kept
+		for i := rapid.IntRange(1, 3).Draw(t, "nodes"); i > 0; i-- {
+			if k := c14OneNode(t, st, ls, ev); k != nil {
+				kept = append(kept, k)
 			}
-			return ls.KnownReifiers[reifier](ipld.LinkContext{}, n, ls)
 		}
-		class := rapid.SampledFrom([]string{"non-dagpb", "pb-nodata", "pb-garbage", "pb-unixfs", "pb-unixfs", "pb-unixfs", "pb-unixfs"}).Draw(t, "class")
-		if class == "non-dagpb" {
-			var n datamodel.Node
-			switch rapid.IntRange(0, 4).Draw(t, "nd") {
-			case 0:
-				n = basicnode.NewBytes(rapid.SliceOfN(rapid.Byte(), 0, 10).Draw(t, "b"))
-			case 1:
-				n = basicnode.NewString("Links")
-			case 2:
-				n = basicnode.NewInt(5)
-			case 3:
-				n, _ = qp.BuildMap(basicnode.Prototype.Any, -1, func(ma datamodel.MapAssembler) {
-					qp.MapEntry(ma, "Links", qp.List(0, func(datamodel.ListAssembler) {}))
-					qp.MapEntry(ma, "Data", qp.Bytes([]byte{8, 2}))
-				})
-			default:
-				n, _ = qp.BuildList(basicnode.Prototype.Any, -1, func(la datamodel.ListAssembler) { qp.ListEntry(la, qp.Int(1)) })
+		for _, k := range kept {
+			sub := k.node.(adl.ADL).Substrate()
+			var buf bytes.Buffer
+			if err := dagpb.Encode(sub, &buf); err != nil || !bytes.Equal(buf.Bytes(), k.orig) {
+				t.Fatalf("C14: %s: after reifying further nodes, Substrate() (%T) no longer re-encodes to the original block (err %v)", k.desc, sub, err)
 			}
-			var rn datamodel.Node
-			var err error
-			must(t, "reify non-dag-pb", func() { rn, err = reify(n) })
-			if err != nil || rn != n {
-				t.Fatalf("C14: %s of a non-dag-pb %s node returned (%v, %v); want the same node back", reifier, n.Kind(), rn, err)
+			if k.isFile {
+				if b, err := k.node.AsBytes(); err != nil || !bytes.Equal(b, k.inner) {
+					t.Fatalf("C14: %s: after reifying further nodes the file reads %q (err %v), want %q", k.desc, b, err, k.inner)
+				}
 			}
-			ev.Case("non-dagpb "+n.Kind().String()+" "+reifier, false, "class:non-dagpb")
-			return
 		}
-		m := &mnode{}
-		nl := rapid.IntRange(0, 8).Draw(t, "nlinks")
-		typ := uint64(99)
-		valid := true
-		switch class {
-		case "pb-nodata":
-		case "pb-garbage":
-			m.HasData = true
-			m.Garbage = rapid.SampledFrom([][]byte{{0xff, 0xff}, {0x08}, {0x12, 0x05, 0x01}, {0x0b}}).Draw(t, "garbage")
+	})
+}
+
+func c14OneNode(t *rapid.T, st *Store, ls *ipld.LinkSystem, ev *Evid) *c14Kept {
+	reifier := rapid.SampledFrom([]string{"Reify", "unixfs", "unixfs-preload"}).Draw(t, "reifier")
+	reify := func(n datamodel.Node) (datamodel.Node, error) {
+		if reifier == "Reify" {
+			return unixfsnode.Reify(ipld.LinkContext{}, n, ls)
+		}
+		return ls.KnownReifiers[reifier](ipld.LinkContext{}, n, ls)
+	}
+	class := rapid.SampledFrom([]string{"non-dagpb", "pb-nodata", "pb-garbage", "pb-unixfs", "pb-unixfs", "pb-unixfs", "pb-unixfs"}).Draw(t, "class")
+	if class == "non-dagpb" {
+		var n datamodel.Node
+		switch rapid.IntRange(0, 4).Draw(t, "nd") {
+		case 0:
+			n = basicnode.NewBytes(rapid.SliceOfN(rapid.Byte(), 0, 10).Draw(t, "b"))
+		case 1:
+			n = basicnode.NewString("Links")
+		case 2:
+			n = basicnode.NewInt(5)
+		case 3:
+			n, _ = qp.BuildMap(basicnode.Prototype.Any, -1, func(ma datamodel.MapAssembler) {
+				qp.MapEntry(ma, "Links", qp.List(0, func(datamodel.ListAssembler) {}))
+				qp.MapEntry(ma, "Data", qp.Bytes([]byte{8, 2}))
+			})
 		default:
-			m.HasData = true
-			typ = rapid.SampledFrom([]uint64{0, 1, 2, 2, 3, 4, 5, 5, 5, 6, 99, 1 << 31}).Draw(t, "type")
-			u := &ufsFields{Type: typ}
-			if typ == 5 {
-				u.HashType = u64p(0x22)
-				u.Fanout = u64p(rapid.SampledFrom([]uint64{8, 16, 256, 1024}).Draw(t, "fanout"))
-				u.HasData, u.Data = true, []byte{}
-				if rapid.Bool().Draw(t, "dropBitfield") {
-					u.HasData = false // reference form of an empty bitfield
-				}
-				if rapid.IntRange(0, 2).Draw(t, "breakShard") == 0 {
-					switch rapid.IntRange(0, 6).Draw(t, "how") {
-					case 0:
-						u.Fanout = u64p(rapid.SampledFrom([]uint64{0, 1, 2, 4, 3, 7, 24, 100}).Draw(t, "badfan"))
-					case 1:
-						u.Fanout = u64p(rapid.SampledFrom([]uint64{2048, 1 << 20, 1 << 63}).Draw(t, "bigfan"))
-					case 2:
-						u.Fanout = nil
-					case 3:
-						u.HashType = u64p(rapid.SampledFrom([]uint64{0, 0x12, 0x23}).Draw(t, "badht"))
-					case 4:
-						u.HashType = nil
-					default:
-						u.HasData, u.Data = true, make([]byte, *u.Fanout/8+uint64(rapid.IntRange(1, 4).Draw(t, "over")))
-						u.Data[0] = 1
-					}
-				}
-				valid = c14ValidShard(u)
-			} else if rapid.Bool().Draw(t, "hasInnerData") {
-				u.HasData, u.Data = true, rapid.SliceOfN(rapid.Byte(), 0, 9).Draw(t, "inner")
-			}
-			m.UFS = u
-		}
-		pad := 0
-		if m.UFS != nil && typ == 5 && m.UFS.Fanout != nil && valid {
-			pad = padWidth(int(*m.UFS.Fanout))
-		}
-		total := uint64(0)
-		for i := 0; i < nl; i++ {
-			leaf := &mnode{IsRaw: true, Raw: []byte(fmt.Sprintf("leaf-%d", i))}
-			name := fmt.Sprintf("%0*X%s", pad, i%8, fmt.Sprintf("n%d", i))
-			l := mlink{Name: strp(name), Tsize: i64p(int64(len(leaf.Raw))), Child: leaf}
-			if m.UFS != nil && (typ == 0 || typ == 2) {
-				l.Name = nil
-				m.UFS.BlockSizes = append(m.UFS.BlockSizes, uint64(len(leaf.Raw)))
-				total += uint64(len(leaf.Raw))
-			}
-			m.Links = append(m.Links, l)
-		}
-		if m.UFS != nil && (typ == 0 || typ == 2) && nl > 0 {
-			m.UFS.FileSize = u64p(total)
-		}
-		root, err := m.store(st, ls)
-		if err != nil {
-			t.Fatalf("harness: %v", err)
-		}
-		orig, _ := st.Get(root)
-		pn, err := loadPlain(ls, root)
-		if err != nil {
-			t.Fatalf("harness: %v", err)
+			n, _ = qp.BuildList(basicnode.Prototype.Any, -1, func(la datamodel.ListAssembler) { qp.ListEntry(la, qp.Int(1)) })
 		}
 		var rn datamodel.Node
-		must(t, "reify "+class, func() { rn, err = reify(pn) })
-		desc := fmt.Sprintf("%s of %s type=%d links=%d valid=%v", reifier, class, typ, nl, valid)
-		wantErr := class == "pb-unixfs" && (typ > 5 || (typ == 5 && !valid))
-		if wantErr {
-			if err == nil {
-				t.Fatalf("C14: %s returned %T without error; want an error", desc, rn)
+		var err error
+		must(t, "reify non-dag-pb", func() { rn, err = reify(n) })
+		if err != nil || rn != n {
+			t.Fatalf("C14: %s of a non-dag-pb %s node returned (%v, %v); want the same node back", reifier, n.Kind(), rn, err)
+		}
+		ev.Case("non-dagpb "+n.Kind().String()+" "+reifier, false, "class:non-dagpb")
+		return nil
+	}
+	m := &mnode{}
+	nl := rapid.IntRange(0, 8).Draw(t, "nlinks")
+	if rapid.IntRange(0, 2).Draw(t, "linkless") == 0 {
+		nl = 0
+	}
+	typ := uint64(99)
+	valid := true
+	switch class {
+	case "pb-nodata":
+	case "pb-garbage":
+		m.HasData = true
+		m.Garbage = rapid.SampledFrom([][]byte{{0xff, 0xff}, {0x08}, {0x12, 0x05, 0x01}, {0x0b}}).Draw(t, "garbage")
+	default:
+		m.HasData = true
+		typ = rapid.SampledFrom([]uint64{0, 0, 0, 1, 1, 1, 2, 2, 2, 2, 3, 3, 4, 4, 5, 5, 5, 5, 6, 7, 99, 1 << 31, 1 << 32, 1<<32 | 2, 1<<32 | 3, 1<<40 | 4, 1<<33 | 1, 1<<32 | 5, 1 << 63, 1<<63 | 2, ^uint64(0)}).Draw(t, "type")
+		u := &ufsFields{Type: typ}
+		if typ == 5 {
+			u.HashType = u64p(0x22)
+			u.Fanout = u64p(rapid.SampledFrom([]uint64{8, 16, 256, 1024}).Draw(t, "fanout"))
+			u.HasData, u.Data = true, []byte{}
+			if rapid.Bool().Draw(t, "dropBitfield") {
+				u.HasData = false // reference form of an empty bitfield
 			}
-			ev.Case(desc, nl > 0, "class:"+class, "outcome:error", "reifier:"+reifier)
-			ev.Sample(map[string]any{"case": desc, "outcome": "error: " + err.Error()})
-			return
-		}
-		if err != nil {
-			t.Fatalf("C14: %s failed: %v", desc, err)
-		}
-		wantKind := datamodel.Kind_Map
-		if class == "pb-unixfs" && (typ == 0 || typ == 2) {
-			wantKind = datamodel.Kind_Bytes
-		}
-		if rn.Kind() != wantKind {
-			t.Fatalf("C14: %s gave kind %s (%T), want %s", desc, rn.Kind(), rn, wantKind)
-		}
-		if wantKind == datamodel.Kind_Bytes {
-			if _, ok := rn.(datamodel.LargeBytesNode); !ok {
-				t.Fatalf("C14: %s gave %T which is not a LargeBytesNode", desc, rn)
-			}
-		} else if typ != 5 {
-			// name-addressable: every link is found under its name (HAMT lookups are by hash path: see C02)
-			for i, l := range m.Links {
-				key := (*l.Name)[pad:]
-				var v datamodel.Node
-				var lerr error
-				must(t, "lookup", func() { v, lerr = rn.LookupByString(key) })
-				if lerr != nil {
-					t.Fatalf("C14: %s: LookupByString(%q) of link %d: %v", desc, key, i, lerr)
+			if rapid.IntRange(0, 2).Draw(t, "breakShard") == 0 {
+				switch rapid.IntRange(0, 6).Draw(t, "how") {
+				case 0:
+					u.Fanout = u64p(rapid.SampledFrom([]uint64{0, 1, 2, 4, 3, 7, 24, 100}).Draw(t, "badfan"))
+				case 1:
+					u.Fanout = u64p(rapid.SampledFrom([]uint64{2048, 1 << 20, 1 << 63}).Draw(t, "bigfan"))
+				case 2:
+					u.Fanout = nil
+				case 3:
+					u.HashType = u64p(rapid.SampledFrom([]uint64{0, 0x12, 0x23}).Draw(t, "badht"))
+				case 4:
+					u.HashType = nil
+				default:
+					u.HasData, u.Data = true, make([]byte, *u.Fanout/8+uint64(rapid.IntRange(1, 4).Draw(t, "over")))
+					u.Data[0] = 1
 				}
-				if c, e := linkOf(v); e != nil || c != sumRaw(l.Child.Raw) {
-					t.Fatalf("C14: %s: LookupByString(%q) -> %v, want link %d", desc, key, c, i)
-				}
+			}
+			valid = c14ValidShard(u)
+		} else if rapid.Bool().Draw(t, "hasInnerData") {
+			u.HasData, u.Data = true, rapid.SliceOfN(rapid.Byte(), 0, 9).Draw(t, "inner")
+		}
+		m.UFS = u
+	}
+	pad := 0
+	if m.UFS != nil && typ == 5 && m.UFS.Fanout != nil && valid {
+		pad = padWidth(int(*m.UFS.Fanout))
+	}
+	total := uint64(0)
+	for i := 0; i < nl; i++ {
+		leaf := &mnode{IsRaw: true, Raw: []byte(fmt.Sprintf("leaf-%d", i))}
+		name := fmt.Sprintf("%0*X%s", pad, i%8, fmt.Sprintf("n%d", i))
+		l := mlink{Name: strp(name), Tsize: i64p(int64(len(leaf.Raw))), Child: leaf}
+		if m.UFS != nil && (typ == 0 || typ == 2) {
+			l.Name = nil
+			m.UFS.BlockSizes = append(m.UFS.BlockSizes, uint64(len(leaf.Raw)))
+			total += uint64(len(leaf.Raw))
+		}
+		m.Links = append(m.Links, l)
+	}
+	if m.UFS != nil && (typ == 0 || typ == 2) && nl > 0 {
+		m.UFS.FileSize = u64p(total)
+	}
+	root, err := m.store(st, ls)
+	if err != nil {
+		t.Fatalf("harness: %v", err)
+	}
+	orig, _ := st.Get(root)
+	pn, err := loadPlain(ls, root)
+	if err != nil {
+		t.Fatalf("harness: %v", err)
+	}
+	var rn datamodel.Node
+	must(t, "reify "+class, func() { rn, err = reify(pn) })
+	desc := fmt.Sprintf("%s of %s type=%d links=%d valid=%v", reifier, class, typ, nl, valid)
+	wantErr := class == "pb-unixfs" && (typ > 5 || (typ == 5 && !valid))
+	if wantErr {
+		if err == nil {
+			t.Fatalf("C14: %s returned %T without error; want an error", desc, rn)
+		}
+		ev.Case(desc, nl > 0, "class:"+class, "outcome:error", "reifier:"+reifier)
+		ev.Sample(map[string]any{"case": desc, "outcome": "error: " + err.Error()})
+		return nil
+	}
+	if err != nil {
+		t.Fatalf("C14: %s failed: %v", desc, err)
+	}
+	wantKind := datamodel.Kind_Map
+	if class == "pb-unixfs" && (typ == 0 || typ == 2) {
+		wantKind = datamodel.Kind_Bytes
+	}
+	if rn.Kind() != wantKind {
+		t.Fatalf("C14: %s gave kind %s (%T), want %s", desc, rn.Kind(), rn, wantKind)
+	}
+	if wantKind == datamodel.Kind_Bytes {
+		if _, ok := rn.(datamodel.LargeBytesNode); !ok {
+			t.Fatalf("C14: %s gave %T which is not a LargeBytesNode", desc, rn)
+		}
+	} else if typ != 5 {
+		// name-addressable: every link is found under its name (HAMT lookups are by hash path: see C02)
+		for i, l := range m.Links {
+			key := (*l.Name)[pad:]
+			var v datamodel.Node
+			var lerr error
+			must(t, "lookup", func() { v, lerr = rn.LookupByString(key) })
+			if lerr != nil {
+				t.Fatalf("C14: %s: LookupByString(%q) of link %d: %v", desc, key, i, lerr)
+			}
+			if c, e := linkOf(v); e != nil || c != sumRaw(l.Child.Raw) {
+				t.Fatalf("C14: %s: LookupByString(%q) -> %v, want link %d", desc, key, c, i)
 			}
 		}
-		a, ok := rn.(adl.ADL)
-		if !ok {
-			t.Fatalf("C14: %s gave %T which exposes no substrate", desc, rn)
+	}
+	a, ok := rn.(adl.ADL)
+	if !ok {
+		t.Fatalf("C14: %s gave %T which exposes no substrate", desc, rn)
+	}
+	sub := a.Substrate()
+	if sub != pn {
+		if _, isPB := sub.(dagpb.PBNode); !isPB {
+			t.Fatalf("C14: %s: Substrate() is a %T of kind %s, not the original dag-pb node", desc, sub, sub.Kind())
 		}
-		sub := a.Substrate()
-		if sub != pn {
-			if _, isPB := sub.(dagpb.PBNode); !isPB {
-				t.Fatalf("C14: %s: Substrate() is a %T of kind %s, not the original dag-pb node", desc, sub, sub.Kind())
-			}
-		}
-		var buf bytes.Buffer
-		if err := dagpb.Encode(sub, &buf); err != nil {
-			t.Fatalf("C14: %s: re-encoding Substrate() (%T) failed: %v", desc, sub, err)
-		}
-		if !bytes.Equal(buf.Bytes(), orig) {
-			t.Fatalf("C14: %s: re-encoded Substrate() differs from the original block", desc)
-		}
-		ev.Case(desc, class == "pb-unixfs" && nl > 0, "class:"+class, fmt.Sprintf("type:%d", typ), "reifier:"+reifier, "outcome:"+wantKind.String())
-		ev.Sample(map[string]any{"case": desc, "outcome": fmt.Sprintf("%T", rn)})
-	})
+	}
+	var buf bytes.Buffer
+	if err := dagpb.Encode(sub, &buf); err != nil {
+		t.Fatalf("C14: %s: re-encoding Substrate() (%T) failed: %v", desc, sub, err)
+	}
+	if !bytes.Equal(buf.Bytes(), orig) {
+		t.Fatalf("C14: %s: re-encoded Substrate() differs from the original block", desc)
+	}
+	ev.Case(desc, class == "pb-unixfs" && nl > 0, "class:"+class, fmt.Sprintf("type:%d", typ), "reifier:"+reifier, "outcome:"+wantKind.String())
+	ev.Sample(map[string]any{"case": desc, "outcome": fmt.Sprintf("%T", rn)})
+	var inner []byte
+	if m.UFS != nil {
+		inner = m.UFS.Data
+	}
+	return &c14Kept{desc: desc, node: rn, orig: orig, isFile: wantKind == datamodel.Kind_Bytes && nl == 0, inner: inner}
 }
 
 // F7 (fixed): the substrate of a single-block dag-pb file is the dag-pb node.
